@@ -313,6 +313,21 @@ private:
   std::atomic<uint64_t> gen{0};
 };
 
+// std::this_thread inside Tools.hh: sleeping is simulated time, yield() a scheduling point
+namespace this_thread_shim {
+template <typename Rep, typename Per>
+inline void sleep_for(const std::chrono::duration<Rep, Per>& d) {
+  auto us = std::chrono::duration_cast<std::chrono::microseconds>(d).count();
+  vpar::sleep_us(us <= 0 ? 0 : (uint64_t)us);
+}
+template <typename C, typename D>
+inline void sleep_until(const std::chrono::time_point<C, D>& tp) {
+  sleep_for(tp - C::now());
+}
+inline void yield() { vpar::yield_point("this_thread.yield"); }
+inline std::thread::id get_id() { return std::this_thread::get_id(); }
+} // namespace this_thread_shim
+
 inline int vs_usleep(uint64_t us) {
   vpar::sleep_us(us);
   return 0;
@@ -330,6 +345,7 @@ using vsim_thread = ::vshim::Thread;
 using vsim_jthread = ::vshim::JThread;
 using vsim_mutex = ::vshim::Mutex;
 using vsim_condition_variable = ::vshim::CondVar;
+namespace vsim_this_thread = ::vshim::this_thread_shim;
 } // namespace std
 namespace phosg {
 inline uint64_t vsim_now() { return ::vshim::vs_now(); }
@@ -341,6 +357,7 @@ inline int vsim_usleep(uint64_t us) { return ::vshim::vs_usleep(us); }
 #define jthread vsim_jthread
 #define mutex vsim_mutex
 #define condition_variable vsim_condition_variable
+#define this_thread vsim_this_thread
 #define usleep vsim_usleep
 #define now vsim_now
 #include "Tools.hh"
@@ -349,6 +366,7 @@ inline int vsim_usleep(uint64_t us) { return ::vshim::vs_usleep(us); }
 #undef jthread
 #undef mutex
 #undef condition_variable
+#undef this_thread
 #undef usleep
 #undef now
 
@@ -498,7 +516,9 @@ void run_typed(const RunCfg& c, const char* type_name) {
   for (int id = 1; id < vpar::task_count(); id++)
     if (!vpar::is_finished(id)) fail("threads/running_after_return", cfg_key, "the call returned while worker thread " + std::to_string(id) + " was still running");
   if (vshim::g_flags.threads_joined != vshim::g_flags.threads_created) fail("threads/not_joined", cfg_key, "created " + std::to_string(vshim::g_flags.threads_created) + " threads, joined " + std::to_string(vshim::g_flags.threads_joined));
-  if (vshim::g_flags.threads_created != c.eff_threads && !vshim::g_flags.spawn_failed) fail("threads/wrong_count", cfg_key, "asked for " + std::to_string(c.eff_threads) + " threads, " + std::to_string(vshim::g_flags.threads_created) + " were created");
+  // (fewer OS threads than num_threads are fine - a short range does not need them all, and the calling thread may
+  // take part as one of the numbered workers; what C16 limits is the thread NUMBERS, checked below)
+  if (vshim::g_flags.threads_created > c.eff_threads && !vshim::g_flags.spawn_failed) fail("threads/wrong_count", cfg_key, "asked for " + std::to_string(c.eff_threads) + " threads, " + std::to_string(vshim::g_flags.threads_created) + " were created");
 
   std::map<uint64_t, int> seen;
   bool any_true_returned = false;
